@@ -172,6 +172,44 @@ for cfg in _snap.values():
                 {"residues": cfg[0], "models": cfg[1], "flavour": flavour}, lambda cfg=cfg, flavour=flavour: snapshot_case(cfg, flavour))
 
 
+def reread_case(cfg):
+    """the text and the binary form decode to the same result when read one after the other with the
+    caller's own list of extra fields; the caller's list is not changed"""
+    a = build(*cfg)
+    fields = list(cfg[-1])
+    before = list(fields)
+    model = None if isinstance(a, struc.AtomArrayStack) else 1
+    results = []
+    for flavour in ("cif", "bcif"):
+        f = pdbx.CIFFile() if flavour == "cif" else pdbx.BinaryCIFFile()
+        pdbx.set_structure(f, a, include_bonds=a.bonds is not None)
+        if flavour == "cif":
+            g = pdbx.CIFFile.deserialize(f.serialize())
+        else:
+            s = io.BytesIO()
+            f.write(s)
+            s.seek(0)
+            g = pdbx.BinaryCIFFile.read(s)
+        with warnings.catch_warnings():
+            warnings.simplefilter("ignore")
+            try:
+                b = pdbx.get_structure(g, model=model, extra_fields=fields, include_bonds=a.bonds is not None)
+            except Exception as e:
+                return f"{flavour} read with the shared extra_fields list raised {type(e).__name__}: {e}"
+        r = same(a, b, before)
+        if r:
+            return f"{flavour} (read with the list already used for the other form): {r}"
+        if fields != before:
+            return f"get_structure() changed the caller's extra_fields list to {fields}"
+    return None
+
+
+for cfg in _snap.values():
+    if cfg[-1]:
+        R.check("text and binary form decode to the same result", f"re-read with one extra_fields list {'stack' if cfg[1] else 'array'}",
+                {"residues": cfg[0], "models": cfg[1], "extra": list(cfg[-1])}, lambda cfg=cfg: reread_case(cfg))
+
+
 # string annotations with special characters: text and binary flavour must agree with the input
 SPECIAL = ["O5'", "5' cap", 'say "x"', "a b", "_lead", "#x", ";x", "data_1", "it's a", "N"]
 
